@@ -663,17 +663,21 @@ func (x *Exec) appendOp(fr *Frame, s, t Val, hint string) Val {
 		x.recordStore(name, s.base())
 		x.recordStore(name, freshRef)
 		x.emit(sx("assert", fmt.Sprintf("(forall ((r Int)) (! (=> (not (= r %s)) (= (select %s r) (select %s r))) :pattern ((select %s r))))", r.base(), newS, oldS, newS)))
-		x.emit(sx("assert", fmt.Sprintf("(forall ((j Int)) (! (=> (and (<= 0 j) (< j %s)) (= (select (select %s %s) (+ %s j)) (select (select %s %s) (+ %s j)))) :pattern ((select (select %s %s) (+ %s j)))))",
-			s.slen(), newS, r.base(), r.off(), oldS, s.base(), s.off(), newS, r.base(), r.off())))
+		rb := r.base()
+		lo1 := r.off()
+		hi1 := add(r.off(), s.slen())
+		x.emit(sx("assert", fmt.Sprintf("(forall ((i Int)) (! (=> (and (<= %s i) (< i %s)) (= (select (select %s %s) i) (select (select %s %s) (+ (- i %s) %s)))) :pattern ((select (select %s %s) i))))",
+			lo1, hi1, newS, rb, oldS, s.base(), lo1, s.off(), newS, rb)))
 		if nl, ok := litInt(n); ok && nl == 1 {
-			x.emit(sx("assert", eq(sel2(newS, r.base(), add(r.off(), s.slen())), sel2(oldS, t.base(), t.off()))))
+			x.emit(sx("assert", eq(sel2(newS, rb, hi1), sel2(oldS, t.base(), t.off()))))
 		} else {
-			x.emit(sx("assert", fmt.Sprintf("(forall ((j Int)) (! (=> (and (<= 0 j) (< j %s)) (= (select (select %s %s) (+ %s %s j)) (select (select %s %s) (+ %s j)))) :pattern ((select (select %s %s) (+ %s %s j)))))",
-				n, newS, r.base(), r.off(), s.slen(), oldS, t.base(), t.off(), newS, r.base(), r.off(), s.slen())))
+			hi2 := add(r.off(), newLen)
+			x.emit(sx("assert", fmt.Sprintf("(forall ((i Int)) (! (=> (and (<= %s i) (< i %s)) (= (select (select %s %s) i) (select (select %s %s) (+ (- i %s) %s)))) :pattern ((select (select %s %s) i))))",
+				hi1, hi2, newS, rb, oldS, t.base(), hi1, t.off(), newS, rb)))
 		}
 		// in place: everything outside the appended window of the old object is unchanged
-		x.emit(sx("assert", implies(inplace, fmt.Sprintf("(forall ((j Int)) (! (=> (or (< j (+ %s %s)) (>= j (+ %s %s))) (= (select (select %s %s) j) (select (select %s %s) j))) :pattern ((select (select %s %s) j))))",
-			s.off(), s.slen(), s.off(), newLen, newS, s.base(), oldS, s.base(), newS, s.base()))))
+		x.emit(sx("assert", implies(inplace, fmt.Sprintf("(forall ((i Int)) (! (=> (or (< i %s) (>= i %s)) (= (select (select %s %s) i) (select (select %s %s) i))) :pattern ((select (select %s %s) i))))",
+			add(s.off(), s.slen()), add(s.off(), newLen), newS, s.base(), oldS, s.base(), newS, s.base()))))
 	}
 	return r
 }
@@ -693,10 +697,13 @@ func (x *Exec) copyOp(fr *Frame, dst, src Val, hint string) Val {
 		oldS, newS := x.havocComp(st, name, sort)
 		x.recordStore(name, dst.base())
 		x.emit(sx("assert", fmt.Sprintf("(forall ((r Int)) (! (=> (not (= r %s)) (= (select %s r) (select %s r))) :pattern ((select %s r))))", dst.base(), newS, oldS, newS)))
-		x.emit(sx("assert", fmt.Sprintf("(forall ((j Int)) (! (=> (and (<= 0 j) (< j %s)) (= (select (select %s %s) (+ %s j)) (select (select %s %s) (+ %s j)))) :pattern ((select (select %s %s) (+ %s j)))))",
-			n, newS, dst.base(), dst.off(), oldS, src.base(), src.off(), newS, dst.base(), dst.off())))
-		x.emit(sx("assert", fmt.Sprintf("(forall ((j Int)) (! (=> (or (< j %s) (>= j (+ %s %s))) (= (select (select %s %s) j) (select (select %s %s) j))) :pattern ((select (select %s %s) j))))",
-			dst.off(), dst.off(), n, newS, dst.base(), oldS, dst.base(), newS, dst.base())))
+		x.rangeCopyAxiom(newS, oldS, dst.base(), dst.off(), n, src.base(), src.off())
 	}
 	return Val{T: types.Typ[types.Int], C: []string{n}}
+}
+
+// rangeCopyAxiom: newS[dst] is oldS[dst] with [dLo, dLo+n) replaced by oldS[src][sLo ...].
+func (x *Exec) rangeCopyAxiom(newS, oldS, dst, dLo, n, src, sLo string) {
+	x.emit(sx("assert", fmt.Sprintf("(forall ((i Int)) (! (= (select (select %s %s) i) (ite (and (<= %s i) (< i %s)) (select (select %s %s) (+ (- i %s) %s)) (select (select %s %s) i))) :pattern ((select (select %s %s) i))))",
+		newS, dst, dLo, add(dLo, n), oldS, src, dLo, sLo, oldS, dst, newS, dst)))
 }
